@@ -92,6 +92,17 @@ class S:
                 P.decompose_eq(c, 1 if expected else 0, "bool", out)
         return out
 
+    def edge_new_facts(self, fn, node):
+        """what becomes known on this edge: its own condition and whatever the prover derives for it (threaded facts of
+        a joined value tested here), i.e. the facts at the edge that do not already hold at its source block"""
+        an = self.E.an(fn)
+        cfg = an.cfg
+        if node < cfg.nblocks:
+            return []
+        src = cfg.edges[node - cfg.nblocks].src
+        before = {repr(f) for f in self.E.facts(fn, src)}
+        return [f for f in self.E.facts(fn, node) if repr(f) not in before]
+
     def edges_where(self, fn, pred):
         """edge nodes one of whose own facts satisfies pred(fact)"""
         an = self.E.an(fn)
